@@ -266,7 +266,11 @@ class QuadricTensor(ProjectiveTensor, ABC):
     @property
     def dual(self) -> QuadricTensor:
         """The dual quadric."""
-        return type(self)(inv(self.array), is_dual=not self.is_dual, copy=False)
+        cls = type(self)
+        while cls.__init__ is not QuadricTensor.__init__:
+            # subclasses with specialised constructors (e.g. Circle, Sphere) have no dual of their own kind
+            cls = cls.__base__
+        return cls(inv(self.array), is_dual=not self.is_dual, copy=False)
 
 
 class Quadric(QuadricTensor, BoundTensor):
